@@ -603,12 +603,25 @@ Lemma S_simple_like x k : (forall s, process_stmt' s x = add_stmt s (cur s) (mk 
   In (k, end_stmt x) (spans_stmt x) -> S_stmt x.
 Proof. intros E1 E2 Hs s l inl I _ _. rewrite E1, E2. apply S_add; assumption. Qed.
 
+(* [lia] on the arithmetic hypotheses only (the simulation hypotheses are large) *)
+Ltac keep_arith :=
+  repeat match goal with
+  | H : ?T |- _ =>
+      lazymatch T with
+      | (_ < _)%N => fail | (_ <= _)%N => fail | (_ < _)%nat => fail | (_ <= _)%nat => fail
+      | @eq N _ _ => fail | @eq nat _ _ => fail | (_ <> _) => fail | (_ \/ _) => fail
+      | _ => clear H
+      end
+  end.
+Ltac flia := keep_arith; lia.
+Ltac uflia := autorewrite with bst; flia.
+
 (* ---- keys of the block table stay below [next] ---- *)
 Definition klt (s : st) : Prop := forall b, haskey s b -> b < next s.
 Lemma klt_nb s : klt s -> klt (nb s).
-Proof. intros K b Hb. unfold haskey in Hb. autorewrite with bst in *. cbn [map fst] in Hb. destruct Hb as [<-|Hb]; [lia|]. specialize (K b Hb). lia. Qed.
+Proof. intros K b Hb. unfold haskey in Hb. autorewrite with bst in *. cbn [map fst] in Hb. destruct Hb as [<-|Hb]; [flia|]. specialize (K b Hb). flia. Qed.
 Lemma klt_eq s s' : map fst (blocks s') = map fst (blocks s) -> next s <= next s' -> klt s -> klt s'.
-Proof. intros E N K b Hb. unfold haskey in Hb. rewrite E in Hb. specialize (K b Hb). lia. Qed.
+Proof. intros E N K b Hb. unfold haskey in Hb. rewrite E in Hb. specialize (K b Hb). flia. Qed.
 Lemma klt_add_stmt s b x : klt s -> klt (add_stmt s b x).
 Proof. apply klt_eq; [cbn [add_stmt blocks]; apply add_to_keys|reflexivity]. Qed.
 Lemma klt_connect s a b t : klt s -> klt (connect s a b t).
@@ -633,7 +646,7 @@ Proof.
   - apply (wfb_mid anyb s); [apply mid_set_cur; exact M|exact Wb|exact L|exact E].
   - exact H2.
   - exact K.
-  - autorewrite with bst. rewrite E. intros x f Hx _ Hf. destruct (wb_fin _ Wb x Hx) as (H & _). specialize (H f Hf). lia.
+  - autorewrite with bst. rewrite E. intros x f Hx _ Hf. destruct (wb_fin _ Wb x Hx) as (H & _). specialize (H f Hf). flia.
 Qed.
 
 Lemma lframe_mid s t c' :
@@ -643,14 +656,14 @@ Proof. intros M L E K H1 H2. split; [apply mid_set_cur; exact M|exact L|exact E|
 Ltac lev :=
   repeat match goal with
   | |- context [upd _ ?b _ ?b] => rewrite upd_same
-  | |- context [upd ?l ?b ?v ?x] => rewrite (upd_other l b v x) by lia
-  | A : agree ?n ?l ?l' |- context [?l' ?x] => rewrite (A x) by lia
+  | |- context [upd ?l ?b ?v ?x] => rewrite (upd_other l b v x) by flia
+  | A : agree ?n ?l ?l' |- context [?l' ?x] => rewrite (A x) by flia
   end.
 Ltac lev_in H :=
   repeat match type of H with
   | context [upd _ ?b _ ?b] => rewrite upd_same in H
-  | context [upd ?l ?b ?v ?x] => rewrite (upd_other l b v x) in H by lia
-  | context [?l' ?x] => match goal with A : agree ?n ?l l' |- _ => rewrite (A x) in H by lia end
+  | context [upd ?l ?b ?v ?x] => rewrite (upd_other l b v x) in H by flia
+  | context [?l' ?x] => match goal with A : agree ?n ?l l' |- _ => rewrite (A x) in H by flia end
   end.
 
 (* a sub-block processed from the fresh block [c] of a state [t] reached from [s] by primitives *)
@@ -705,10 +718,10 @@ Proof.
   set (rb := flow_block L body).
   set (l1 := upd (upd l (next s) L) (N.succ (next s)) (rn rb || L)).
   assert (M4 : mid anyb s s4).
-  { apply mid_connect; [repeat apply mid_nb; apply mid_add_stmt, mid_refl_b; exact Wb|left; exact Logic.I|unfold s4; ulia|unfold s4; ulia]. }
+  { apply mid_connect; [repeat apply mid_nb; apply mid_add_stmt, mid_refl_b; exact Wb|left; exact Logic.I|unfold s4; uflia|unfold s4; uflia]. }
   assert (K4 : klt s4) by (apply klt_connect; repeat apply klt_nb; apply klt_add_stmt; exact (i_klt _ I)).
   assert (N4 : next s4 = N.succ (N.succ (next s))) by reflexivity.
-  assert (I4 : inv (set_cur s4 (next s))) by (apply (inv_fresh s); try assumption; try reflexivity; lia).
+  assert (I4 : inv (set_cur s4 (next s))) by (apply (inv_fresh s); try assumption; try reflexivity; flia).
   assert (A1 : agree (next s) l l1).
   { intros b Hb. unfold l1. lev. reflexivity. }
   destruct (Sb (set_cur s4 (next s)) l1 inl I4 Hlok) as (l2 & A2 & F5 & C5 & So5 & Co5 & Da & Db & Dc); [exact Hinl|].
@@ -716,11 +729,11 @@ Proof.
   assert (Hl1t : l1 (next s) = L) by (unfold l1; lev; reflexivity).
   rewrite Hl1t in *. fold rb in C5, So5, Co5, Da, Db.
   pose proof (m_next _ _ _ (lf_mid _ _ F5)) as N5. autorewrite with bst in N5. rewrite N4 in *.
-  exists l2. split; [eapply agree_trans; [exact A1|exact A2|lia]|].
+  exists l2. split; [eapply agree_trans; [exact A1|exact A2|flia]|].
   cbn [flow_stmt flow_arms flow_oblock opt_n rn rk rmarks]. fold L rb. rewrite !orb_false_r, !app_nil_r.
   split; [|split; [|split; [|split; [|split; [|split]]]]].
-  - apply lframe_mid; autorewrite with bst; try (lia).
-    + apply mid_connect; [apply mid_connect; [|left; exact Logic.I|ulia|ulia]|left; exact Logic.I|autorewrite with bst; apply F5|ulia].
+  - apply lframe_mid; autorewrite with bst; try (flia).
+    + apply mid_connect; [apply mid_connect; [|left; exact Logic.I|uflia|uflia]|left; exact Logic.I|autorewrite with bst; apply F5|uflia].
       apply (mid_transA _ anyb s (set_cur s4 (next s))); [apply mid_set_cur; exact M4|apply F5|intros; left; exact Logic.I].
     + rewrite (lf_loops _ _ F5). reflexivity.
     + rewrite (lf_excs _ _ F5). reflexivity.
@@ -742,12 +755,12 @@ Proof.
     destruct (Co5 E HE5 HRt) as (P4 & P2 & P3). autorewrite with bst.
     split; [|split].
     + intros b Hb1 Hb2 Hb3. destruct (N.lt_ge_cases b (N.succ (N.succ (next s)))) as [Hlt|Hge].
-      * assert (b = (next s) \/ b = (N.succ (next s))) as [->| ->] by (lia).
+      * assert (b = (next s) \/ b = (N.succ (next s))) as [->| ->] by (flia).
         -- apply HRt. unfold l1 in *. lev_in Hb3. exact Hb3.
         -- unfold l1 in *. lev_in Hb3. apply orb_true_iff in Hb3.
            assert (HL : L = true) by (destruct Hb3 as [Hb3|Hb3]; [apply (rn_block_le _ _ Hb3)|exact Hb3]).
            eapply reach_step; [apply HR; exact HL|]. apply HE. apply in_or_app. left. apply in_or_app. right. left. reflexivity.
-      * apply P4; [lia|lia|exact Hb3].
+      * apply P4; [flia|flia|exact Hb3].
     + intros Hk Hnp t Ht. apply (P2 Hk); [exact Hnp|]. exact Ht.
     + intros HL Hn. rewrite HL, orb_true_r in Hn. discriminate.
   - intros k' e' b Hp. autorewrite with plc in Hp. destruct (Da k' e' b Hp) as [Hp0|[Hk|(Hm & Hs)]].
@@ -778,36 +791,36 @@ Proof.
   set (rb := flow_block L body). set (re := flow_block L eb).
   set (l1 := upd (upd l (next s) L) (N.succ (next s)) (rn rb || rn re)).
   assert (M4 : mid anyb s s4).
-  { apply mid_connect; [repeat apply mid_nb; apply mid_add_stmt, mid_refl_b; exact Wb|left; exact Logic.I|unfold s4; ulia|unfold s4; ulia]. }
+  { apply mid_connect; [repeat apply mid_nb; apply mid_add_stmt, mid_refl_b; exact Wb|left; exact Logic.I|unfold s4; uflia|unfold s4; uflia]. }
   assert (K4 : klt s4) by (apply klt_connect; repeat apply klt_nb; apply klt_add_stmt; exact (i_klt _ I)).
   assert (N4 : next s4 = N.succ (N.succ (next s))) by reflexivity.
   assert (A1 : agree (next s) l l1) by (intros b Hb; unfold l1; lev; reflexivity).
-  destruct (S_branch s s4 (next s) l l1 inl body Sb I M4 eq_refl eq_refl K4) as (l2 & B5); try assumption; try lia.
+  destruct (S_branch s s4 (next s) l l1 inl body Sb I M4 eq_refl eq_refl K4) as (l2 & B5); try assumption; try flia.
   rewrite <- Es5p in B5. destruct B5 as (A2 & F5 & C5 & N5 & I5 & So5 & Co5 & Da5 & Db5 & Dc5).
   assert (Hl1t : l1 (next s) = L) by (unfold l1; lev; reflexivity).
   rewrite Hl1t in *. fold rb in C5, So5, Co5, Da5, Db5. rewrite N4 in *.
   set (s7 := connect (nb s5p) (cur s) (next s5p) ECondFalse) in *.
   set (l3 := upd l2 (next s5p) L).
   assert (M7 : mid anyb s s7).
-  { apply mid_connect; [apply mid_nb|left; exact Logic.I|ulia|ulia].
+  { apply mid_connect; [apply mid_nb|left; exact Logic.I|uflia|uflia].
     apply (mid_transA _ anyb s (set_cur s4 (next s))); [apply mid_set_cur; exact M4|apply F5|intros; left; exact Logic.I]. }
   assert (K7 : klt s7) by (apply klt_connect, klt_nb; exact (lf_klt _ _ F5)).
   assert (N7 : next s7 = N.succ (next s5p)) by reflexivity.
   assert (A3 : agree (next s) l l3).
   { intros b Hb. unfold l3. lev. unfold l1. lev. reflexivity. }
-  destruct (S_branch s s7 (next s5p) l l3 inl eb Se I M7) as (l4 & B8); try assumption; try lia.
+  destruct (S_branch s s7 (next s5p) l l3 inl eb Se I M7) as (l4 & B8); try assumption; try flia.
   { unfold s7. autorewrite with bst. apply F5. }
   { unfold s7. autorewrite with bst. apply F5. }
   rewrite <- Es8p in B8. destruct B8 as (A4 & F8 & C8 & N8 & I8 & So8 & Co8 & Da8 & Db8 & Dc8).
   assert (Hl3e : l3 (next s5p) = L) by (unfold l3; lev; reflexivity).
   rewrite Hl3e in *. fold re in C8, So8, Co8, Da8, Db8. rewrite N7 in *.
   pose proof (lf_curlt _ _ F5) as Hc5. pose proof (lf_curlt _ _ F8) as Hc8.
-  assert (Hcu5 : next s <= cur s5p) by (destruct (lf_cur _ _ F5) as [H|H]; autorewrite with bst in H; lia).
+  assert (Hcu5 : next s <= cur s5p) by (destruct (lf_cur _ _ F5) as [H|H]; autorewrite with bst in H; flia).
   exists l4. split; [intros b Hb; lev; unfold l3; lev; unfold l1; lev; reflexivity|].
   cbn [flow_stmt flow_arms flow_oblock opt_n rn rk rmarks]. fold L rb re. rewrite !orb_false_r, !app_nil_l.
   split; [|split; [|split; [|split; [|split; [|split]]]]].
-  - apply lframe_mid; autorewrite with bst; try lia.
-    + apply mid_connect; [apply mid_connect; [|left; exact Logic.I|ulia|ulia]|left; exact Logic.I|ulia|ulia].
+  - apply lframe_mid; autorewrite with bst; try flia.
+    + apply mid_connect; [apply mid_connect; [|left; exact Logic.I|uflia|uflia]|left; exact Logic.I|uflia|uflia].
       apply (mid_transA _ anyb s (set_cur s7 (next s5p))); [apply mid_set_cur; exact M7|apply F8|intros; left; exact Logic.I].
     + rewrite (lf_loops _ _ F8). unfold s7. autorewrite with bst. rewrite (lf_loops _ _ F5). reflexivity.
     + rewrite (lf_excs _ _ F8). unfold s7. autorewrite with bst. rewrite (lf_excs _ _ F5). reflexivity.
@@ -818,7 +831,7 @@ Proof.
       * exact Hctx.
       * intro Hk. apply Hb. rewrite Hk. apply orb_true_r.
       * unfold s7. autorewrite with bst. rewrite closed_snoc. split.
-        -- apply (closed_agree (next s5p) l2); [|apply (wb_bnd _ (i_wfb _ I5))|unfold l3; apply agree_upd; lia].
+        -- apply (closed_agree (next s5p) l2); [|apply (wb_bnd _ (i_wfb _ I5))|unfold l3; apply agree_upd; flia].
            apply So5; [exact Hctx|intro Hk; apply Hb; rewrite Hk; reflexivity|].
            unfold s4. autorewrite with bst. rewrite closed_snoc. split; [apply (closed_ext l); assumption|].
            unfold l1. lev. exact (fun H => H).
@@ -837,7 +850,7 @@ Proof.
     destruct (Co5 E HE5 HRt) as (P4a & P1a & P2a & P3a). destruct (Co8 E HE8 HRe) as (P4b & P1b & P2b & P3b).
     autorewrite with bst. split; [|split].
     + intros b Hb1 Hb2 Hb3. destruct (N.lt_ge_cases b (N.succ (N.succ (next s)))) as [Hlt|Hge].
-      * assert (b = next s \/ b = N.succ (next s)) as [->| ->] by lia.
+      * assert (b = next s \/ b = N.succ (next s)) as [->| ->] by flia.
         -- apply HRt. lev_in Hb3. unfold l3 in Hb3. lev_in Hb3. unfold l1 in Hb3. lev_in Hb3. exact Hb3.
         -- lev_in Hb3. unfold l3 in Hb3. lev_in Hb3. unfold l1 in Hb3. lev_in Hb3. apply orb_true_iff in Hb3. destruct Hb3 as [Hb3|Hb3].
            ++ eapply reach_step; [apply P1a; exact Hb3|]. apply HE. apply in_or_app. left. apply in_or_app. right. left. reflexivity.
@@ -846,7 +859,7 @@ Proof.
         -- apply P4a; [exact Hge|exact Hlt5|]. lev_in Hb3. unfold l3 in Hb3. lev_in Hb3. exact Hb3.
         -- destruct (N.eq_dec b (next s5p)) as [->|Hne].
            ++ apply HRe. lev_in Hb3. unfold l3 in Hb3. lev_in Hb3. exact Hb3.
-           ++ apply P4b; [lia|exact Hb2|exact Hb3].
+           ++ apply P4b; [flia|exact Hb2|exact Hb3].
     + intros Hk Hnp t Ht. apply orb_true_iff in Hk. destruct Hk as [Hk|Hk]; [apply (P2a Hk Hnp t Ht)|apply (P2b Hk Hnp t Ht)].
     + intros HL Hn f Hf. apply orb_false_iff in Hn. destruct Hn as (Hn1 & Hn2). apply (P3a HL Hn1 f Hf).
   - intros k' e' b Hp. autorewrite with plc in Hp. destruct (Da8 k' e' b Hp) as [Hp0|[Hk|(Hm & Hs)]].
@@ -875,3 +888,850 @@ Proof.
   - intros k' e' b Hp. autorewrite with plc. apply Dc8. unfold s7. autorewrite with plc. apply Dc5. unfold s4. autorewrite with plc.
     apply placed_add_stmt_mono. exact Hp.
 Qed.
+
+Definition okk (o : option res) : bool := match o with Some r => rk r | None => false end.
+Definition onm (o : option res) : list (N * bool) := match o with Some r => rmarks r | None => [] end.
+
+(* the final else of an elif chain: [c] is the last condition block, [t] the state after its then-body *)
+Definition K_out (t : st) (c merge : N) (l : lam) (L : bool) (els : oblock) (t' : st) (l' : lam) : Prop :=
+  let re := flow_oblock L els in
+  agree (next t) l l' /\ mid anyb t t' /\ loops t' = loops t /\ excs t' = excs t /\ klt t' /\ next t <= next t' /\
+  ((L = true -> ctx_ok l t) -> (okk re = true -> brk_ok l t) -> (opt_n L re = true -> l merge = true) ->
+     closed l (edges t) -> closed l' (edges t')) /\
+  (forall E, incl (edges t') E -> (L = true -> reach E c) ->
+     (forall b0, next t <= b0 -> b0 < next t' -> l' b0 = true -> reach E b0) /\
+     (opt_n L re = true -> reach E merge) /\
+     (okk re = true -> noproc t -> forall t0, brk_t t = Some t0 -> reach E t0)) /\
+  (forall k e b0, placed t' k e b0 -> placed t k e b0 \/ k = 0 \/ (In (k, l' b0) (onm re) /\ In (k, e) (spans_oblock els))) /\
+  (forall k m, In (k, m) (onm re) -> In k (elif_oblock els) \/ exists e b0, placed t' k e b0 /\ l' b0 = m) /\
+  (forall k e b0, placed t k e b0 -> placed t' k e b0).
+
+Lemma S_kelse els merge t c l inl :
+  S_oblock els -> inv t -> c < next t -> merge < next t -> lok_oblock inl els = true -> (inl = true -> loops t <> []) ->
+  exists l', K_out t c merge l (l c) els (kelse_of' els merge t c) l'.
+Proof.
+  intros Se It Hc Hm Hlok Hinl. pose proof (i_wfb _ It) as Wb. set (L := l c).
+  destruct els as [|eb]; cbn [kelse_of' flow_oblock].
+  - exists l. unfold K_out. cbn [flow_oblock okk onm opt_n spans_oblock elif_oblock]. autorewrite with bst.
+    split; [apply agree_refl|]. split; [apply mid_connect; [apply mid_refl_b; exact Wb|left; exact Logic.I|exact Hc|exact Hm]|].
+    split; [reflexivity|]. split; [reflexivity|]. split; [apply klt_connect; exact (i_klt _ It)|]. split; [flia|].
+    split; [|split; [|split; [|split]]].
+    + intros _ _ Hmg Cl. rewrite closed_snoc. split; [exact Cl|exact Hmg].
+    + intros E HE HR. split; [intros b0 H1 H2; flia|]. split; [|discriminate].
+      intro HL. eapply reach_step; [apply HR; exact HL|]. apply HE. apply in_or_app. right. left. reflexivity.
+    + intros k e b0 Hp. autorewrite with plc in Hp. left. exact Hp.
+    + intros k m [].
+    + intros k e b0 Hp. autorewrite with plc. exact Hp.
+  - rewrite new_block_eq. cbv beta iota zeta. cbn [S_oblock lok_oblock] in Se, Hlok.
+    set (t2 := connect (nb t) c (next t) ECondFalse).
+    set (l1 := upd l (next t) L).
+    assert (M2 : mid anyb t t2) by (apply mid_connect; [apply mid_nb, mid_refl_b; exact Wb|left; exact Logic.I|uflia|uflia]).
+    assert (K2 : klt t2) by (apply klt_connect, klt_nb; exact (i_klt _ It)).
+    assert (A1 : agree (next t) l l1) by (apply agree_upd; flia).
+    destruct (S_branch t t2 (next t) l l1 inl eb Se It M2 eq_refl eq_refl K2) as (l2 & B3); try assumption; try flia; [unfold t2; uflia|].
+    set (t3 := process_block' (set_cur t2 (next t)) eb) in *.
+    destruct B3 as (A2 & F3 & C3 & N3 & I3 & So3 & Co3 & Da3 & Db3 & Dc3).
+    assert (Hl1 : l1 (next t) = L) by (unfold l1; lev; reflexivity). rewrite Hl1 in *.
+    set (re := flow_block L eb) in *.
+    assert (N2 : next t2 = N.succ (next t)) by reflexivity. rewrite N2 in *.
+    pose proof (lf_curlt _ _ F3) as Hc3.
+    exists l2. unfold K_out. cbn [flow_oblock okk onm opt_n spans_oblock elif_oblock]. fold re. autorewrite with bst.
+    split; [intros b Hb; lev; unfold l1; lev; reflexivity|].
+    split; [|split; [|split; [|split; [|split; [|split; [|split; [|split; [|split]]]]]]]].
+    + apply mid_connect; [|left; exact Logic.I|exact Hc3|flia].
+      apply (mid_transA _ anyb t (set_cur t2 (next t))); [apply mid_set_cur; exact M2|apply F3|intros; left; exact Logic.I].
+    + rewrite (lf_loops _ _ F3). reflexivity.
+    + rewrite (lf_excs _ _ F3). reflexivity.
+    + apply klt_connect. exact (lf_klt _ _ F3).
+    + flia.
+    + intros Hctx Hb Hmg Cl. rewrite closed_snoc. split.
+      * apply So3; [exact Hctx|exact Hb|]. unfold t2. autorewrite with bst. rewrite closed_snoc. split; [apply (closed_ext l); assumption|].
+        unfold l1. lev. exact (fun H => H).
+      * rewrite C3. lev. unfold l1. lev. exact Hmg.
+    + intros E HE HR.
+      assert (HE3 : incl (edges t3) E) by (intros x Hx; apply HE; apply in_or_app; left; exact Hx).
+      assert (HRe : L = true -> reach E (next t)).
+      { intro HL. eapply reach_step; [apply HR; exact HL|]. apply HE3. apply (lframe_incl _ _ F3). unfold t2. autorewrite with bst.
+        apply in_or_app. right. left. reflexivity. }
+      destruct (Co3 E HE3 HRe) as (P4 & P1 & P2 & P3). split; [|split].
+      * intros b0 H1 H2 H3. destruct (N.eq_dec b0 (next t)) as [->|Hne].
+        -- apply HRe. lev_in H3. unfold l1 in H3. lev_in H3. exact H3.
+        -- apply P4; [flia|exact H2|exact H3].
+      * intro Hn. eapply reach_step; [apply P1; exact Hn|]. apply HE. apply in_or_app. right. left. reflexivity.
+      * exact P2.
+    + intros k e b0 Hp. autorewrite with plc in Hp. destruct (Da3 k e b0 Hp) as [Hp0|[Hk|Hm']]; [|right; left; exact Hk|right; right; exact Hm'].
+      unfold t2 in Hp0. autorewrite with plc in Hp0. left. exact Hp0.
+    + intros k m Hin. destruct (Db3 k m Hin) as [He|(e & b0 & Hp & Hm')]; [left; exact He|]. right. exists e, b0.
+      split; [autorewrite with plc; exact Hp|exact Hm'].
+    + intros k e b0 Hp. autorewrite with plc. apply Dc3. unfold t2. autorewrite with plc. exact Hp.
+Qed.
+
+(* an elif chain processed from the block [cur s] (labelled [L]), with the final else [els], joining at [merge] *)
+Definition E_out (s : st) (merge : N) (l : lam) (L : bool) (a : arms) (els : oblock) (s' : st) (l' : lam) : Prop :=
+  let ra := flow_arms L a in let re := flow_oblock L els in
+  agree (next s) l l' /\ mid anyb s s' /\ loops s' = loops s /\ excs s' = excs s /\ klt s' /\ next s <= next s' /\ cur s' = merge /\
+  ((L = true -> ctx_ok l s) -> (rk ra || okk re = true -> brk_ok l s) -> (rn ra || opt_n L re = true -> l merge = true) ->
+     closed l (edges s) -> closed l' (edges s')) /\
+  (forall E, incl (edges s') E -> (L = true -> reach E (cur s)) ->
+     (forall b0, next s <= b0 -> b0 < next s' -> l' b0 = true -> reach E b0) /\
+     (rn ra || opt_n L re = true -> reach E merge) /\
+     (rk ra || okk re = true -> noproc s -> forall t0, brk_t s = Some t0 -> reach E t0)) /\
+  (forall k e b0, placed s' k e b0 -> placed s k e b0 \/ k = 0 \/
+     (In (k, l' b0) (rmarks ra ++ onm re) /\ In (k, e) (spans_elif a ++ spans_oblock els))) /\
+  (forall k m, In (k, m) (rmarks ra ++ onm re) ->
+     In k (map_arms_ids a ++ elif_arms a ++ elif_oblock els) \/ exists e b0, placed s' k e b0 /\ l' b0 = m) /\
+  (forall k e b0, placed s k e b0 -> placed s' k e b0).
+
+Definition S_elif (a : arms) : Prop := forall els merge s l inl,
+  S_oblock els -> inv s -> merge < next s -> a <> ANil ->
+  lok_arms inl a = true -> lok_oblock inl els = true -> (inl = true -> loops s <> []) ->
+  exists l', E_out s merge l (l (cur s)) a els (process_elif' s a (kelse_of' els merge) merge) l'.
+
+Lemma S_elif_cons k1 b1 rest : S_block b1 -> S_elif rest -> S_elif (ACons k1 b1 rest).
+Proof.
+  intros Sb Sr els merge s l inl Se I Hm _ Hlok Hloke Hinl.
+  cbn [lok_arms] in Hlok. apply andb_true_iff in Hlok. destruct Hlok as (Hlok1 & Hlok2).
+  set (L := l (cur s)).
+  cbn beta iota delta [process_elif'] fix match. peel_all ident:(p). bsimp.
+  pose proof (i_wfb _ I) as Wb. pose proof (i_cur _ I) as Hc. pose proof (wb_two _ Wb) as H2.
+  set (s3 := connect (nb (add_stmt s (cur s) (mk 0 0 KOther))) (cur s) (next s) ECondTrue) in *.
+  set (r1 := flow_block L b1). set (r2 := flow_arms L rest). set (re := flow_oblock L els).
+  set (l1 := upd l (next s) L).
+  assert (M3 : mid anyb s s3).
+  { apply mid_connect; [apply mid_nb, mid_add_stmt, mid_refl_b; exact Wb|left; exact Logic.I|unfold s3; uflia|unfold s3; uflia]. }
+  assert (K3 : klt s3) by (apply klt_connect, klt_nb, klt_add_stmt; exact (i_klt _ I)).
+  assert (N3 : next s3 = N.succ (next s)) by reflexivity.
+  assert (A1 : agree (next s) l l1) by (apply agree_upd; flia).
+  destruct (S_branch s s3 (next s) l l1 inl b1 Sb I M3 eq_refl eq_refl K3) as (l2 & B4); try assumption; try flia.
+  rewrite <- Es4p in B4. destruct B4 as (A2 & F4 & C4 & N4 & I4 & So4 & Co4 & Da4 & Db4 & Dc4).
+  assert (Hl1 : l1 (next s) = L) by (unfold l1; lev; reflexivity). rewrite Hl1 in *. fold r1 in C4, So4, Co4, Da4, Db4.
+  rewrite N3 in *.
+  pose proof (lf_curlt _ _ F4) as Hc4.
+  assert (Hcu4 : next s <= cur s4p) by (destruct (lf_cur _ _ F4) as [H|H]; autorewrite with bst in H; flia).
+  assert (M4 : mid anyb s s4p).
+  { apply (mid_transA _ anyb s (set_cur s3 (next s))); [apply mid_set_cur; exact M3|apply F4|intros; left; exact Logic.I]. }
+  assert (L4 : loops s4p = loops s) by (rewrite (lf_loops _ _ F4); reflexivity).
+  assert (X4 : excs s4p = excs s) by (rewrite (lf_excs _ _ F4); reflexivity).
+  (* the rest of the chain, as one step from s4p *)
+  set (s5 := match rest with
+             | ANil => kelse_of' els merge s4p (cur s)
+             | ACons _ _ _ => process_elif' (set_cur (connect (nb s4p) (cur s) (next s4p) ECondFalse) (next s4p)) rest (kelse_of' els merge) merge
+             end).
+  assert (H5 : exists l3, agree (next s4p) l2 l3 /\ mid anyb s4p s5 /\ loops s5 = loops s /\ excs s5 = excs s /\ klt s5 /\ next s4p <= next s5 /\
+     ((L = true -> ctx_ok l s) -> (rk r2 || okk re = true -> brk_ok l s) -> (rn r2 || opt_n L re = true -> l merge = true) ->
+        closed l2 (edges s4p) -> closed l3 (edges s5)) /\
+     (forall E, incl (edges s5) E -> (L = true -> reach E (cur s)) ->
+        (forall b0, next s4p <= b0 -> b0 < next s5 -> l3 b0 = true -> reach E b0) /\
+        (rn r2 || opt_n L re = true -> reach E merge) /\
+        (rk r2 || okk re = true -> noproc s -> forall t0, brk_t s = Some t0 -> reach E t0)) /\
+     (forall k e b0, placed s5 k e b0 -> placed s4p k e b0 \/ k = 0 \/
+        (In (k, l3 b0) (rmarks r2 ++ onm re) /\ In (k, e) (spans_elif rest ++ spans_oblock els))) /\
+     (forall k m, In (k, m) (rmarks r2 ++ onm re) ->
+        In k (map_arms_ids rest ++ elif_arms rest ++ elif_oblock els) \/ exists e b0, placed s5 k e b0 /\ l3 b0 = m) /\
+     (forall k e b0, placed s4p k e b0 -> placed s5 k e b0)).
+  { assert (Hlc : l2 (cur s) = L) by (lev; unfold l1; lev; reflexivity).
+    assert (Hlm : l2 merge = l merge) by (lev; unfold l1; lev; reflexivity).
+    assert (Ag2 : agree (next s) l l2) by (intros b Hb; lev; unfold l1; lev; reflexivity).
+    unfold s5. destruct rest as [|k2 b2 rest'].
+    - destruct (S_kelse els merge s4p (cur s) l2 inl Se I4) as (l3 & K); try assumption; try flia; [rewrite L4; exact Hinl|].
+      rewrite Hlc in K. destruct K as (A3 & M5 & L5 & X5 & K5 & N5 & So5 & Co5 & Da5 & Db5 & Dc5).
+      exists l3. unfold r2. cbn [flow_arms rn rk rmarks spans_elif map_arms_ids elif_arms]. fold re. cbn [orb app].
+      split; [exact A3|]. split; [exact M5|]. split; [congruence|]. split; [congruence|]. split; [exact K5|]. split; [exact N5|].
+      split; [|split; [|split; [|split]]].
+      + intros Hctx Hb Hmg Cl. apply So5; [| | |exact Cl].
+        * intro HL. apply (ctx_ok_agree l l2 s); [apply Hctx; exact HL|exact I|exact Ag2|exact L4|exact X4].
+        * intro Hk. apply (brk_ok_agree l l2 s); [apply Hb; exact Hk|exact I|exact Ag2|exact L4].
+        * intro Ho. rewrite Hlm. apply Hmg. exact Ho.
+      + intros E HE HR. destruct (Co5 E HE HR) as (P4 & P1 & P2). split; [exact P4|]. split; [exact P1|].
+        intros Hk Hnp t0 Ht0. apply (P2 Hk); [apply (noproc_eq s); assumption|rewrite (brk_t_eq s); assumption].
+      + exact Da5.
+      + exact Db5.
+      + exact Dc5.
+    - set (t2 := connect (nb s4p) (cur s) (next s4p) ECondFalse).
+      set (l2' := upd l2 (next s4p) L).
+      assert (M2 : mid anyb s4p t2) by (apply mid_connect; [apply mid_nb, mid_refl_b; exact (i_wfb _ I4)|left; exact Logic.I|uflia|uflia]).
+      assert (It2 : inv (set_cur t2 (next s4p))).
+      { apply (inv_fresh s4p); try assumption; try reflexivity; [apply klt_connect, klt_nb; exact (i_klt _ I4)|unfold t2; uflia]. }
+      destruct (Sr els merge (set_cur t2 (next s4p)) l2' inl Se It2) as (l3 & EO); try assumption; try discriminate.
+      { unfold t2. uflia. }
+      { unfold t2. autorewrite with bst. rewrite L4. exact Hinl. }
+      autorewrite with bst in EO. unfold l2' in EO at 2. rewrite upd_same in EO.
+      destruct EO as (A3 & M5 & L5 & X5 & K5 & N5 & C5 & So5 & Co5 & Da5 & Db5 & Dc5).
+      autorewrite with bst in *. fold r2 re in So5, Co5, Da5, Db5.
+      assert (Nt2 : next t2 = N.succ (next s4p)) by reflexivity. rewrite Nt2 in *.
+      exists l3. split; [intros b Hb; lev; unfold l2'; lev; reflexivity|].
+      split; [apply (mid_transA _ anyb s4p (set_cur t2 (next s4p))); [apply mid_set_cur; exact M2|exact M5|intros; left; exact Logic.I]|].
+      split; [rewrite L5; unfold t2; autorewrite with bst; exact L4|]. split; [rewrite X5; unfold t2; autorewrite with bst; exact X4|].
+      split; [exact K5|]. split; [flia|]. split; [|split; [|split; [|split]]].
+      + intros Hctx Hb Hmg Cl. apply So5.
+        * intro HL. apply (ctx_ok_agree l l2' s); [apply Hctx; exact HL|exact I| |unfold t2; autorewrite with bst; exact L4|unfold t2; autorewrite with bst; exact X4].
+          intros b Hb'. unfold l2'. lev. unfold l1. lev. reflexivity.
+        * intro Hk. apply (brk_ok_agree l l2' s); [apply Hb; exact Hk|exact I| |unfold t2; autorewrite with bst; exact L4].
+          intros b Hb'. unfold l2'. lev. unfold l1. lev. reflexivity.
+        * intro Ho. unfold l2'. lev. unfold l1. lev. apply Hmg. exact Ho.
+        * unfold t2. autorewrite with bst. rewrite closed_snoc. split.
+          -- apply (closed_agree (next s4p) l2); [exact Cl|apply (wb_bnd _ (i_wfb _ I4))|unfold l2'; apply agree_upd; flia].
+          -- unfold l2'. lev. unfold l1. lev. exact (fun H => H).
+      + intros E HE HR.
+        assert (HRe : L = true -> reach E (next s4p)).
+        { intro HL. eapply reach_step; [apply HR; exact HL|]. apply HE. destruct (m_edges _ _ _ M5) as (D & ED & _). rewrite ED.
+          apply in_or_app. left. unfold t2. autorewrite with bst. apply in_or_app. right. left. reflexivity. }
+        destruct (Co5 E HE HRe) as (P4 & P1 & P2). split; [|split].
+        * intros b0 H1 H2' H3. destruct (N.eq_dec b0 (next s4p)) as [->|Hne].
+          -- apply HRe. lev_in H3. unfold l2' in H3. lev_in H3. exact H3.
+          -- apply P4; [flia|exact H2'|exact H3].
+        * exact P1.
+        * intros Hk Hnp t0 Ht0. apply (P2 Hk).
+          -- apply (noproc_eq s); [unfold t2; autorewrite with bst; exact L4|unfold t2; autorewrite with bst; exact X4|exact Hnp].
+          -- rewrite (brk_t_eq s); [exact Ht0|unfold t2; autorewrite with bst; exact L4|unfold t2; autorewrite with bst; exact X4].
+      + intros k e b0 Hp. destruct (Da5 k e b0 Hp) as [Hp0|[Hk|Hm']]; [|right; left; exact Hk|right; right; exact Hm'].
+        unfold t2 in Hp0. autorewrite with plc in Hp0. left. exact Hp0.
+      + exact Db5.
+      + intros k e b0 Hp. apply Dc5. unfold t2. autorewrite with plc. exact Hp. }
+  destruct H5 as (l3 & A3 & M5 & L5 & X5 & K5 & N5 & So5 & Co5 & Da5 & Db5 & Dc5).
+  fold s5. clearbody s5.
+  exists l3. unfold E_out. cbn [flow_arms rn rk rmarks spans_elif map_arms_ids elif_arms]. fold L r1 r2 re. autorewrite with bst.
+  split; [intros b Hb; lev; unfold l1; lev; reflexivity|].
+  split; [|split; [|split; [|split; [|split; [|split; [reflexivity|split; [|split; [|split; [|split]]]]]]]]].
+  - apply mid_set_cur, mid_connect; [|left; exact Logic.I|flia|flia].
+    apply (mid_transA _ anyb s s4p); [exact M4|exact M5|intros; left; exact Logic.I].
+  - exact L5.
+  - exact X5.
+  - apply klt_set_cur, klt_connect. exact K5.
+  - flia.
+  - intros Hctx Hb Hmg Cl. rewrite closed_snoc. split.
+    + apply So5; [exact Hctx| | |].
+      * intro Hk. apply Hb. rewrite <- orb_assoc. rewrite Hk. apply orb_true_r.
+      * intro Ho. apply Hmg. rewrite <- orb_assoc. rewrite Ho. apply orb_true_r.
+      * apply So4; [exact Hctx| |].
+        -- intro Hk. apply Hb. rewrite Hk. reflexivity.
+        -- unfold s3. autorewrite with bst. rewrite closed_snoc. split; [apply (closed_ext l); assumption|].
+           unfold l1. lev. exact (fun H => H).
+    + lev. rewrite C4. unfold l1. lev. intro Hn. apply Hmg. rewrite Hn. reflexivity.
+  - intros E HE HR.
+    assert (HE5 : incl (edges s5) E) by (intros x Hx; apply HE; apply in_or_app; left; exact Hx).
+    assert (HE4 : incl (edges s4p) E).
+    { destruct (m_edges _ _ _ M5) as (D & ED & _). intros x Hx. apply HE5. rewrite ED. apply in_or_app. left. exact Hx. }
+    assert (HRt : L = true -> reach E (next s)).
+    { intro HL. eapply reach_step; [apply HR; exact HL|]. apply HE4. apply (lframe_incl _ _ F4). unfold s3. autorewrite with bst.
+      apply in_or_app. right. left. reflexivity. }
+    destruct (Co4 E HE4 HRt) as (P4a & P1a & P2a & P3a). destruct (Co5 E HE5 HR) as (P4b & P1b & P2b).
+    split; [|split].
+    + intros b0 H1 H2' H3. destruct (N.eq_dec b0 (next s)) as [->|Hne].
+      * apply HRt. lev_in H3. unfold l1 in H3. lev_in H3. exact H3.
+      * destruct (N.lt_ge_cases b0 (next s4p)) as [Hlt|Hge].
+        -- apply P4a; [flia|exact Hlt|]. lev_in H3. exact H3.
+        -- apply P4b; [exact Hge|exact H2'|exact H3].
+    + intro Hn. rewrite <- orb_assoc in Hn. apply orb_true_iff in Hn. destruct Hn as [Hn|Hn].
+      * eapply reach_step; [apply P1a; exact Hn|]. apply HE. apply in_or_app. right. left. reflexivity.
+      * apply P1b. exact Hn.
+    + intros Hk Hnp t0 Ht0. rewrite <- orb_assoc in Hk. apply orb_true_iff in Hk. destruct Hk as [Hk|Hk].
+      * apply (P2a Hk Hnp t0 Ht0).
+      * apply (P2b Hk Hnp t0 Ht0).
+  - intros k e b0 Hp. autorewrite with plc in Hp. destruct (Da5 k e b0 Hp) as [Hp0|[Hk|(Hm' & Hs)]].
+    + destruct (Da4 k e b0 Hp0) as [Hp1|[Hk|(Hm' & Hs)]].
+      * unfold s3 in Hp1. autorewrite with plc in Hp1. apply placed_add_stmt_inv in Hp1.
+        destruct Hp1 as [Hp1|(-> & -> & ->)]; [left; exact Hp1|right; left; reflexivity].
+      * right. left. exact Hk.
+      * right. right. split; [right; apply in_or_app; left|apply in_or_app; left; apply in_or_app; left; exact Hs].
+        assert (Hb0 : b0 < next s4p) by (apply (placed_lt s4p k e); assumption).
+        apply in_or_app. left. lev. exact Hm'.
+    + right. left. exact Hk.
+    + right. right. split.
+      * right. rewrite <- app_assoc. apply in_or_app. right. exact Hm'.
+      * rewrite <- app_assoc. apply in_or_app. right. exact Hs.
+  - intros k m [Heq|Hin].
+    + inversion Heq; subst. left. left. reflexivity.
+    + rewrite <- app_assoc in Hin. apply in_app_or in Hin. destruct Hin as [Hin|Hin].
+      * destruct (Db4 k m Hin) as [He|(e & b0 & Hp & Hm')].
+        -- left. right. apply in_or_app. right. apply in_or_app. left. apply in_or_app. left. exact He.
+        -- right. exists e, b0. split; [autorewrite with plc; apply Dc5; exact Hp|].
+           assert (Hb0 : b0 < next s4p) by (apply (placed_lt s4p k e); assumption). lev. exact Hm'.
+      * destruct (Db5 k m Hin) as [He|(e & b0 & Hp & Hm')].
+        -- left. right. apply in_app_or in He. destruct He as [He|He]; [apply in_or_app; left; exact He|].
+           apply in_or_app. right. apply in_app_or in He. destruct He as [He|He].
+           ++ apply in_or_app. left. apply in_or_app. right. exact He.
+           ++ apply in_or_app. right. exact He.
+        -- right. exists e, b0. split; [autorewrite with plc; exact Hp|exact Hm'].
+  - intros k e b0 Hp. autorewrite with plc. apply Dc5, Dc4. unfold s3. autorewrite with plc. apply placed_add_stmt_mono. exact Hp.
+Qed.
+
+Lemma S_if_elif k body k1 b1 rest els :
+  S_block body -> S_elif (ACons k1 b1 rest) -> S_oblock els -> S_stmt (If k body (ACons k1 b1 rest) els).
+Proof.
+  intros Sb Sa Se s l inl I Hlok Hinl. cbn [lok_stmt] in Hlok.
+  apply andb_true_iff in Hlok. destruct Hlok as (Hlok & Hlok3). apply andb_true_iff in Hlok. destruct Hlok as (Hlok1 & Hlok2).
+  set (L := l (cur s)).
+  cbn beta iota delta [process_stmt'] fix match. peel_all ident:(p). bsimp. set (a := ACons k1 b1 rest) in *.
+  pose proof (i_wfb _ I) as Wb. pose proof (i_cur _ I) as Hc. pose proof (wb_two _ Wb) as H2.
+  set (e := end_stmt (If k body a els)) in *.
+  set (s4 := connect (nb (nb (add_stmt s (cur s) (mk k e KOther)))) (cur s) (next s) ECondTrue) in *.
+  set (rb := flow_block L body). set (ra := flow_arms L a). set (re := flow_oblock L els).
+  set (l1 := upd (upd l (next s) L) (N.succ (next s)) (rn rb || rn ra || opt_n L re)).
+  assert (M4 : mid anyb s s4).
+  { apply mid_connect; [repeat apply mid_nb; apply mid_add_stmt, mid_refl_b; exact Wb|left; exact Logic.I|unfold s4; uflia|unfold s4; uflia]. }
+  assert (K4 : klt s4) by (apply klt_connect; repeat apply klt_nb; apply klt_add_stmt; exact (i_klt _ I)).
+  assert (N4 : next s4 = N.succ (N.succ (next s))) by reflexivity.
+  assert (A1 : agree (next s) l l1) by (intros b Hb; unfold l1; lev; reflexivity).
+  destruct (S_branch s s4 (next s) l l1 inl body Sb I M4 eq_refl eq_refl K4) as (l2 & B5); try assumption; try flia.
+  rewrite <- Es5p in B5. destruct B5 as (A2 & F5 & C5 & N5 & I5 & So5 & Co5 & Da5 & Db5 & Dc5).
+  assert (Hl1t : l1 (next s) = L) by (unfold l1; lev; reflexivity).
+  rewrite Hl1t in *. fold rb in C5, So5, Co5, Da5, Db5. rewrite N4 in *.
+  set (s7 := connect (nb s5p) (cur s) (next s5p) ECondFalse) in *.
+  set (l3 := upd l2 (next s5p) L).
+  assert (M7 : mid anyb s s7).
+  { apply mid_connect; [apply mid_nb|left; exact Logic.I|uflia|uflia].
+    apply (mid_transA _ anyb s (set_cur s4 (next s))); [apply mid_set_cur; exact M4|apply F5|intros; left; exact Logic.I]. }
+  assert (K7 : klt s7) by (apply klt_connect, klt_nb; exact (lf_klt _ _ F5)).
+  assert (N7 : next s7 = N.succ (next s5p)) by reflexivity.
+  assert (L7 : loops s7 = loops s) by (unfold s7; autorewrite with bst; apply F5).
+  assert (X7 : excs s7 = excs s) by (unfold s7; autorewrite with bst; apply F5).
+  assert (A3 : agree (next s) l l3) by (intros b Hb; unfold l3; lev; unfold l1; lev; reflexivity).
+  assert (I7 : inv (set_cur s7 (next s5p))) by (apply (inv_fresh s); try assumption; flia).
+  change (s8p = process_elif' (set_cur s7 (next s5p)) a (kelse_of' els (N.succ (next s))) (N.succ (next s))) in Es8p.
+  destruct (Sa els (N.succ (next s)) (set_cur s7 (next s5p)) l3 inl Se I7) as (l4 & EO); try assumption; try discriminate.
+  { autorewrite with bst. flia. }
+  { autorewrite with bst. rewrite L7. exact Hinl. }
+  rewrite <- Es8p in EO. autorewrite with bst in EO. unfold l3 in EO at 2. rewrite upd_same in EO.
+  destruct EO as (A4 & M8 & L8 & X8 & K8 & N8 & C8 & So8 & Co8 & Da8 & Db8 & Dc8).
+  autorewrite with bst in *. fold ra re in So8, Co8, Da8, Db8. rewrite N7 in *.
+  pose proof (lf_curlt _ _ F5) as Hc5.
+  assert (Hcu5 : next s <= cur s5p) by (destruct (lf_cur _ _ F5) as [H|H]; autorewrite with bst in H; flia).
+  exists l4. split; [intros b Hb; lev; unfold l3; lev; unfold l1; lev; reflexivity|].
+  change (flow_stmt L (If k body a els)) with
+    {| rn := rn rb || rn ra || opt_n L re; rk := rk rb || rk ra || okk re;
+       rmarks := (k, L) :: rmarks rb ++ rmarks ra ++ onm re;
+       rcx := rcx (flow_stmt L (If k body a els)) |}.
+  cbn [rn rk rmarks].
+  split; [|split; [|split; [|split; [|split; [|split]]]]].
+  - apply lframe_mid; autorewrite with bst; try flia.
+    + apply mid_connect; [|left; exact Logic.I|uflia|uflia].
+      apply (mid_transA _ anyb s (set_cur s7 (next s5p))); [apply mid_set_cur; exact M7|exact M8|intros; left; exact Logic.I].
+    + rewrite L8. exact L7.
+    + rewrite X8. exact X7.
+    + apply klt_connect. exact K8.
+  - autorewrite with bst. lev. unfold l3. lev. unfold l1. lev. reflexivity.
+  - intros Hctx Hb Cl. autorewrite with bst. rewrite closed_snoc. split.
+    + apply So8.
+      * intro HL. apply (ctx_ok_agree l l3 s); [apply Hctx; exact HL|exact I|exact A3|exact L7|exact X7].
+      * intro Hk. apply (brk_ok_agree l l3 s); [apply Hb; rewrite <- orb_assoc, Hk; apply orb_true_r|exact I|exact A3|exact L7].
+      * intro Hn. unfold l3. lev. unfold l1. lev. rewrite <- orb_assoc, Hn. apply orb_true_r.
+      * unfold s7. autorewrite with bst. rewrite closed_snoc. split.
+        -- apply (closed_agree (next s5p) l2); [|apply (wb_bnd _ (i_wfb _ I5))|unfold l3; apply agree_upd; flia].
+           apply So5; [exact Hctx|intro Hk; apply Hb; rewrite Hk; reflexivity|].
+           unfold s4. autorewrite with bst. rewrite closed_snoc. split; [apply (closed_ext l); assumption|].
+           unfold l1. lev. exact (fun H => H).
+        -- unfold l3. lev. unfold l1. lev. exact (fun H => H).
+    + lev. unfold l3. lev. rewrite C5. unfold l1. lev. intro H. rewrite H. reflexivity.
+  - intros E HE HR. autorewrite with bst in HE.
+    assert (HE8 : incl (edges s8p) E) by (intros x Hx; apply HE; apply in_or_app; left; exact Hx).
+    assert (HE7 : incl (edges s7) E).
+    { destruct (m_edges _ _ _ M8) as (D & ED & _). intros x Hx. apply HE8. rewrite ED. apply in_or_app. left. exact Hx. }
+    assert (HE5 : incl (edges s5p) E) by (intros x Hx; apply HE7; unfold s7; autorewrite with bst; apply in_or_app; left; exact Hx).
+    assert (HRt : L = true -> reach E (next s)).
+    { intro HL. eapply reach_step; [apply HR; exact HL|]. apply HE5. apply (lframe_incl _ _ F5). unfold s4. autorewrite with bst.
+      apply in_or_app. right. left. reflexivity. }
+    assert (HRe : L = true -> reach E (next s5p)).
+    { intro HL. eapply reach_step; [apply HR; exact HL|]. apply HE7. unfold s7. autorewrite with bst. apply in_or_app. right. left. reflexivity. }
+    destruct (Co5 E HE5 HRt) as (P4a & P1a & P2a & P3a). destruct (Co8 E HE8 HRe) as (P4b & P1b & P2b).
+    autorewrite with bst. split; [|split].
+    + intros b Hb1 Hb2 Hb3. destruct (N.lt_ge_cases b (N.succ (N.succ (next s)))) as [Hlt|Hge].
+      * assert (b = next s \/ b = N.succ (next s)) as [->| ->] by flia.
+        -- apply HRt. lev_in Hb3. unfold l3 in Hb3. lev_in Hb3. unfold l1 in Hb3. lev_in Hb3. exact Hb3.
+        -- lev_in Hb3. unfold l3 in Hb3. lev_in Hb3. unfold l1 in Hb3. lev_in Hb3.
+           rewrite <- orb_assoc in Hb3. apply orb_true_iff in Hb3. destruct Hb3 as [Hb3|Hb3].
+           ++ eapply reach_step; [apply P1a; exact Hb3|]. apply HE. apply in_or_app. right. left. reflexivity.
+           ++ apply P1b. exact Hb3.
+      * destruct (N.lt_ge_cases b (next s5p)) as [Hlt5|Hge5].
+        -- apply P4a; [exact Hge|exact Hlt5|]. lev_in Hb3. unfold l3 in Hb3. lev_in Hb3. exact Hb3.
+        -- destruct (N.eq_dec b (next s5p)) as [->|Hne].
+           ++ apply HRe. lev_in Hb3. unfold l3 in Hb3. lev_in Hb3. exact Hb3.
+           ++ apply P4b; [flia|exact Hb2|exact Hb3].
+    + intros Hk Hnp t Ht. rewrite <- orb_assoc in Hk. apply orb_true_iff in Hk. destruct Hk as [Hk|Hk]; [apply (P2a Hk Hnp t Ht)|].
+      apply (P2b Hk); [apply (noproc_eq s); assumption|rewrite (brk_t_eq s); assumption].
+    + intros HL Hn f Hf. apply orb_false_iff in Hn. destruct Hn as (Hn & _). apply orb_false_iff in Hn. destruct Hn as (Hn1 & _).
+      apply (P3a HL Hn1 f Hf).
+  - intros k' e' b Hp. autorewrite with plc in Hp. destruct (Da8 k' e' b Hp) as [Hp0|[Hk|(Hm & Hs)]].
+    + unfold s7 in Hp0. autorewrite with plc in Hp0. destruct (Da5 k' e' b Hp0) as [Hp1|[Hk|(Hm & Hs)]].
+      * unfold s4 in Hp1. autorewrite with plc in Hp1. apply placed_add_stmt_inv in Hp1.
+        destruct Hp1 as [Hp1|(-> & -> & ->)]; [left; exact Hp1|]. right. right. cbn [mk b_start b_end]. split; [left|left; reflexivity].
+        lev. unfold l3. lev. unfold l1. lev. reflexivity.
+      * right. left. exact Hk.
+      * right. right. split; [right; apply in_or_app; left|right; apply in_or_app; left; exact Hs].
+        assert (Hb : b < next s5p) by (apply (placed_lt s5p k' e'); assumption).
+        lev. unfold l3. lev. exact Hm.
+    + right. left. exact Hk.
+    + right. right. split; [right; apply in_or_app; right; exact Hm|right; apply in_or_app; right; exact Hs].
+  - intros k' m [Heq|Hin].
+    + inversion Heq; subst. right. exists e, (cur s). split.
+      * autorewrite with plc. apply Dc8. unfold s7. autorewrite with plc. apply Dc5. unfold s4. autorewrite with plc.
+        apply (placed_add_stmt_new s (cur s) (mk k' e KOther)). apply (wb_keys _ Wb). exact Hc.
+      * lev. unfold l3. lev. unfold l1. lev. reflexivity.
+    + cbn [elif_stmt]. apply in_app_or in Hin. destruct Hin as [Hin|Hin].
+      * destruct (Db5 k' m Hin) as [He|(e' & b & Hp & Hm)]; [left; apply in_or_app; left; exact He|].
+        right. exists e', b. split; [autorewrite with plc; apply Dc8; unfold s7; autorewrite with plc; exact Hp|].
+        assert (Hb : b < next s5p) by (apply (placed_lt s5p k' e'); assumption).
+        lev. unfold l3. lev. exact Hm.
+      * destruct (Db8 k' m Hin) as [He|(e' & b & Hp & Hm)]; [left; apply in_or_app; right; exact He|].
+        right. exists e', b. split; [autorewrite with plc; exact Hp|exact Hm].
+  - intros k' e' b Hp. autorewrite with plc. apply Dc8. unfold s7. autorewrite with plc. apply Dc5. unfold s4. autorewrite with plc.
+    apply placed_add_stmt_mono. exact Hp.
+Qed.
+
+(* ---- loops: the body, processed with the loop context pushed ---- *)
+Definition LP_out (s : st) (k e : N) (hasel : bool) (l l1 : lam) (body : block) (s10 : st) (l2 : lam) : Prop :=
+  let L := l (cur s) in let rb := flow_block L body in
+  let s9 := loop_s9 s k e hasel in let bodyb := N.succ (next s) in let exitb := N.succ (N.succ (next s)) in
+  agree (next s9) l1 l2 /\ lframe (set_cur s9 bodyb) s10 /\ l2 (cur s10) = rn rb /\ inv s10 /\
+  loops s10 = loop_ctx s :: loops s /\ excs s10 = excs s /\ next s9 <= next s10 /\ (cur s10 = bodyb \/ next s9 <= cur s10) /\
+  ((L = true -> ctx_ok l s) -> closed l1 (edges s9) -> closed l2 (edges s10)) /\
+  (forall E, incl (edges s10) E -> (L = true -> reach E bodyb) ->
+     (forall b0, next s9 <= b0 -> b0 < next s10 -> l2 b0 = true -> reach E b0) /\
+     (rn rb = true -> reach E (cur s10)) /\ (rk rb = true -> reach E exitb)) /\
+  (forall k' e' b0, placed s10 k' e' b0 -> placed s9 k' e' b0 \/ k' = 0 \/ (In (k', l2 b0) (rmarks rb) /\ In (k', e') (spans_block body))) /\
+  (forall k' m, In (k', m) (rmarks rb) -> In k' (elif_block body) \/ exists e' b0, placed s10 k' e' b0 /\ l2 b0 = m) /\
+  (forall k' e' b0, placed s9 k' e' b0 -> placed s10 k' e' b0).
+
+Lemma loop_s9_facts s k e hasel : inv s ->
+  let s9 := loop_s9 s k e hasel in
+  mid anyb s s9 /\ klt s9 /\ next s9 = next (loop_s6 s k e hasel) /\ cur s9 = cur s /\ loops s9 = loop_ctx s :: loops s /\ excs s9 = excs s /\
+  edges s9 = ((edges s ++ [(cur s, next s, ENormal)]) ++ [(next s, N.succ (next s), ECondTrue)]) ++
+             [(next s, (if hasel then N.succ (N.succ (N.succ (next s))) else N.succ (N.succ (next s))), ECondFalse)] /\
+  (forall k' e' b0, placed s9 k' e' b0 <-> placed (add_stmt (nb s) (next s) (mk k e KOther)) k' e' b0).
+Proof.
+  intros I s9. pose proof (i_wfb _ I) as Wb. pose proof (i_cur _ I) as Hc.
+  destruct (loop_s6_proj s k e hasel) as (P1 & P2 & P3 & P4 & P5).
+  assert (M6 : mid anyb s (loop_s6 s k e hasel)).
+  { unfold loop_s6. cbv zeta.
+    assert (M : mid anyb s (nb (nb (add_stmt (connect (nb s) (cur s) (next s) ENormal) (next s) (mk k e KOther))))).
+    { repeat apply mid_nb. apply mid_add_stmt. apply mid_connect; [apply mid_nb, mid_refl_b; exact Wb|left; exact Logic.I|uflia|uflia]. }
+    destruct hasel; [apply mid_nb|]; exact M. }
+  assert (K6 : klt (loop_s6 s k e hasel)).
+  { unfold loop_s6. cbv zeta.
+    assert (K : klt (nb (nb (add_stmt (connect (nb s) (cur s) (next s) ENormal) (next s) (mk k e KOther))))).
+    { repeat apply klt_nb. apply klt_add_stmt, klt_connect, klt_nb. exact (i_klt _ I). }
+    destruct hasel; [apply klt_nb|]; exact K. }
+  split; [|split; [|split; [|split; [|split; [|split; [|split]]]]]].
+  - unfold s9, loop_s9. apply mid_connect; [apply mid_connect; [apply mid_set_loops; exact M6| | |]| | |];
+      autorewrite with bst; try (left; exact Logic.I); rewrite P1; destruct hasel; flia.
+  - unfold s9, loop_s9. apply klt_connect, klt_connect, klt_set_loops. exact K6.
+  - reflexivity.
+  - unfold s9, loop_s9. autorewrite with bst. exact P2.
+  - reflexivity.
+  - unfold s9, loop_s9. autorewrite with bst. exact P4.
+  - unfold s9, loop_s9. autorewrite with bst. rewrite P5. reflexivity.
+  - intros k' e' b0. unfold s9, loop_s9. autorewrite with plc. unfold loop_s6. cbv zeta.
+    destruct hasel; autorewrite with plc; apply placed_blocks_eq; reflexivity.
+Qed.
+
+Lemma S_loop_body s k e hasel l l1 body :
+  S_block body -> inv s -> lok_block true body = true ->
+  agree (next s) l l1 -> l1 (next s) = l (cur s) -> l1 (N.succ (next s)) = l (cur s) ->
+  (rk (flow_block (l (cur s)) body) = true -> l1 (N.succ (N.succ (next s))) = true) ->
+  exists l2, LP_out s k e hasel l l1 body (process_block' (set_cur (loop_s9 s k e hasel) (N.succ (next s))) body) l2.
+Proof.
+  intros Sb I Hlok A1 Hh Hbb Hex. set (L := l (cur s)) in *. set (rb := flow_block L body) in *.
+  pose proof (i_wfb _ I) as Wb. pose proof (i_cur _ I) as Hc. pose proof (wb_two _ Wb) as H2.
+  destruct (loop_s9_facts s k e hasel I) as (M9 & K9 & N9 & C9 & L9 & X9 & E9 & _).
+  destruct (loop_s6_proj s k e hasel) as (P1 & _). rewrite P1 in N9.
+  set (s9 := loop_s9 s k e hasel) in *.
+  assert (Hn9 : N.succ (N.succ (N.succ (next s))) <= next s9) by (rewrite N9; destruct hasel; flia).
+  assert (I9 : inv (set_cur s9 (N.succ (next s)))).
+  { split.
+    - split.
+      + pose proof (m_next _ _ _ M9). autorewrite with bst. flia.
+      + apply M9.
+      + apply M9.
+      + autorewrite with bst. rewrite X9. eapply fin_lt_mono; [apply Wb|flia].
+      + autorewrite with bst. rewrite L9, X9. intros lp [<-|Hlp].
+        * cbn [loop_ctx l_header l_exit l_excdepth]. repeat split; flia.
+        * destruct (wb_loops _ Wb lp Hlp) as (Q1 & Q2 & Q3). repeat split; flia.
+    - autorewrite with bst. flia.
+    - exact K9.
+    - autorewrite with bst. rewrite X9. intros x f Hx _ Hf. destruct (wb_fin _ Wb x Hx) as (Q & _). specialize (Q f Hf). flia. }
+  destruct (Sb (set_cur s9 (N.succ (next s))) l1 true I9 Hlok) as (l2 & A2 & F & C & So & Co & Da & Db & Dc).
+  { intros _. autorewrite with bst. rewrite L9. discriminate. }
+  autorewrite with bst in *. rewrite Hbb in *. fold rb in C, So, Co, Da, Db.
+  pose proof (m_next _ _ _ (lf_mid _ _ F)) as N10. autorewrite with bst in N10.
+  exists l2. unfold LP_out. cbv zeta. fold L rb s9.
+  split; [exact A2|]. split; [exact F|]. split; [exact C|]. split; [exact (inv_lframe _ _ I9 F)|].
+  split; [rewrite (lf_loops _ _ F); autorewrite with bst; exact L9|]. split; [rewrite (lf_excs _ _ F); autorewrite with bst; exact X9|].
+  split; [exact N10|]. split; [destruct (lf_cur _ _ F) as [Q|Q]; autorewrite with bst in Q; [left; exact Q|right; exact Q]|].
+  split; [|split; [|split; [exact Da|split; [exact Db|exact Dc]]]].
+  - intros Hctx Cl. apply So; [| |exact Cl].
+    + intro HL. destruct (Hctx HL) as (Q1 & Q2 & Q3 & Q4). unfold ctx_ok. autorewrite with bst. rewrite L9, X9. repeat split.
+      * rewrite (A1 exit_id) by (unfold exit_id; flia). exact Q1.
+      * intros x f Hx Hf. destruct (wb_fin _ Wb x Hx) as (Q & _). rewrite (A1 f) by (apply Q; exact Hf). eapply Q2; eauto.
+      * intros x h Hx Hh'. destruct (wb_fin _ Wb x Hx) as (_ & Q). rewrite (A1 h) by (apply Q; exact Hh'). eapply Q3; eauto.
+      * intros lp [<-|Hlp]; [cbn [loop_ctx l_header]; rewrite Hh; exact HL|].
+        destruct (wb_loops _ Wb lp Hlp) as (Q & _). rewrite (A1 _ Q). apply Q4. exact Hlp.
+    + intros Hk lp Hlp. autorewrite with bst in Hlp. rewrite L9 in Hlp. cbn in Hlp. inversion Hlp; subst lp.
+      cbn [loop_ctx l_exit]. apply Hex. exact Hk.
+  - intros E HE HR. destruct (Co E HE HR) as (P4 & P2 & P3). split; [exact P4|]. split.
+    + intro Hn. destruct (lf_cur _ _ F) as [Q|Q]; autorewrite with bst in Q.
+      * rewrite Q. apply HR. apply (rn_block_le _ _ Hn).
+      * apply P4; [exact Q|apply F|]. rewrite C. exact Hn.
+    + intro Hk. apply (P2 Hk).
+      * unfold noproc. autorewrite with bst. rewrite L9. unfold in_loop_frames. autorewrite with bst. rewrite X9.
+        cbn [loop_ctx l_excdepth]. rewrite Nat.sub_diag. intros y [].
+      * unfold brk_t. autorewrite with bst. rewrite L9. unfold in_loop_frames. autorewrite with bst. rewrite X9.
+        cbn [loop_ctx l_excdepth l_exit]. rewrite Nat.sub_diag. reflexivity.
+Qed.
+
+Lemma S_while_none k body : S_block body -> S_stmt (While k body ONone).
+Proof.
+  intros Sb s l inl I Hlok Hinl. cbn [lok_stmt lok_oblock] in Hlok. rewrite andb_true_r in Hlok.
+  set (L := l (cur s)).
+  cbn beta iota delta [process_stmt'] fix match. peel_all ident:(p). bsimp.
+  pose proof (i_wfb _ I) as Wb. pose proof (i_cur _ I) as Hc. pose proof (wb_two _ Wb) as H2.
+  set (e := end_stmt (While k body ONone)) in *.
+  change (s10p = process_block' (set_cur (loop_s9 s k e false) (N.succ (next s))) body) in Es10p.
+  set (rb := flow_block L body).
+  set (l1 := upd (upd (upd l (next s) L) (N.succ (next s)) L) (N.succ (N.succ (next s))) (L || rk rb)).
+  assert (A1 : agree (next s) l l1) by (intros b Hb; unfold l1; lev; reflexivity).
+  destruct (S_loop_body s k e false l l1 body Sb I Hlok A1) as (l2 & LP).
+  { unfold l1; lev; reflexivity. }
+  { unfold l1; lev; reflexivity. }
+  { intro Hk. unfold l1. lev. unfold rb, L. rewrite Hk. apply orb_true_r. }
+  rewrite <- Es10p in LP. destruct LP as (A2 & F & C & I10 & L10 & X10 & N10 & K10 & So & Co & Da & Db & Dc).
+  destruct (loop_s9_facts s k e false I) as (M9 & K9 & N9 & C9 & L9 & X9 & E9 & P9).
+  destruct (loop_s6_proj s k e false) as (P1 & _). rewrite P1 in N9. fold L rb in C, So, Co, Da, Db.
+  set (s9 := loop_s9 s k e false) in *. rewrite N9 in *.
+  pose proof (lf_curlt _ _ F) as Hc10.
+  rewrite L10. cbn [tl].
+  exists l2. split; [intros b Hb; lev; unfold l1; lev; reflexivity|].
+  cbn [flow_stmt flow_oblock opt_n rn rk rmarks]. fold L rb. rewrite app_nil_r.
+  split; [|split; [|split; [|split; [|split; [|split]]]]].
+  - apply lframe_mid; autorewrite with bst; try flia.
+    + apply mid_set_loops, mid_connect; [|left; exact Logic.I|exact Hc10|flia].
+      apply (mid_transA _ anyb s (set_cur s9 (N.succ (next s)))); [apply mid_set_cur; exact M9|apply F|intros; left; exact Logic.I].
+    + reflexivity.
+    + exact X10.
+    + apply klt_set_loops, klt_connect. exact (lf_klt _ _ F).
+  - autorewrite with bst. lev. unfold l1. lev. reflexivity.
+  - intros Hctx Hb Cl. autorewrite with bst. rewrite closed_snoc. split.
+    + apply So; [exact Hctx|]. rewrite E9. rewrite !closed_snoc. split; [split; [split|]|].
+      * apply (closed_ext l); assumption.
+      * unfold l1. lev. exact (fun H => H).
+      * unfold l1. lev. exact (fun H => H).
+      * unfold l1. lev. fold L. intro H. rewrite H. reflexivity.
+    + rewrite C. lev. unfold l1. lev. apply rn_block_le.
+  - intros E HE HR. autorewrite with bst in HE.
+    assert (HE10 : incl (edges s10p) E) by (intros x Hx; apply HE; apply in_or_app; left; exact Hx).
+    assert (HE9 : incl (edges s9) E) by (eapply incl_tran; [apply (lframe_incl _ _ F)|exact HE10]).
+    rewrite E9 in HE9.
+    assert (HRh : L = true -> reach E (next s)).
+    { intro HL. eapply reach_step; [apply HR; exact HL|]. apply HE9. apply in_or_app. left. apply in_or_app. left. apply in_or_app. right. left. reflexivity. }
+    assert (HRb : L = true -> reach E (N.succ (next s))).
+    { intro HL. eapply reach_step; [apply HRh; exact HL|]. apply HE9. apply in_or_app. left. apply in_or_app. right. left. reflexivity. }
+    destruct (Co E HE10 HRb) as (P4 & P1' & P2).
+    autorewrite with bst. split; [|split].
+    + intros b Hb1 Hb2 Hb3. destruct (N.lt_ge_cases b (N.succ (N.succ (N.succ (next s))))) as [Hlt|Hge].
+      * assert (b = next s \/ b = N.succ (next s) \/ b = N.succ (N.succ (next s))) as [->|[->| ->]] by flia.
+        -- apply HRh. lev_in Hb3. unfold l1 in Hb3. lev_in Hb3. exact Hb3.
+        -- apply HRb. lev_in Hb3. unfold l1 in Hb3. lev_in Hb3. exact Hb3.
+        -- lev_in Hb3. unfold l1 in Hb3. lev_in Hb3. fold L rb in Hb3. apply orb_true_iff in Hb3. destruct Hb3 as [Hb3|Hb3].
+           ++ eapply reach_step; [apply HRh; exact Hb3|]. apply HE9. apply in_or_app. right. left. reflexivity.
+           ++ apply P2. exact Hb3.
+      * apply P4; [exact Hge|exact Hb2|exact Hb3].
+    + discriminate.
+    + intros HL Hn. rewrite HL in Hn. discriminate.
+  - intros k' e' b Hp. autorewrite with plc in Hp. destruct (Da k' e' b Hp) as [Hp0|[Hk|(Hm & Hs)]].
+    + apply P9 in Hp0. apply placed_add_stmt_inv in Hp0. destruct Hp0 as [Hp0|(-> & -> & ->)].
+      * left. autorewrite with plc in Hp0. exact Hp0.
+      * right. right. cbn [mk b_start b_end]. split; [left|left; reflexivity]. lev. unfold l1. lev. reflexivity.
+    + right. left. exact Hk.
+    + right. right. split; [right; exact Hm|right; rewrite app_nil_r; exact Hs].
+  - intros k' m [Heq|Hin].
+    + inversion Heq; subst. right. exists e, (next s). split.
+      * autorewrite with plc. apply Dc. apply P9. apply (placed_add_stmt_new (nb s) (next s) (mk k' e KOther)). left. reflexivity.
+      * lev. unfold l1. lev. reflexivity.
+    + destruct (Db k' m Hin) as [He|(e' & b & Hp & Hm)]; [left; cbn [elif_stmt elif_oblock]; rewrite app_nil_r; exact He|].
+      right. exists e', b. split; [autorewrite with plc; exact Hp|exact Hm].
+  - intros k' e' b Hp. autorewrite with plc. apply Dc. apply P9. apply placed_add_stmt_mono. autorewrite with plc. exact Hp.
+Qed.
+
+Lemma S_for_none k body : S_block body -> S_stmt (For k body ONone).
+Proof.
+  intros Sb s l inl I Hlok Hinl. cbn [lok_stmt lok_oblock] in Hlok. rewrite andb_true_r in Hlok.
+  set (L := l (cur s)).
+  cbn beta iota delta [process_stmt'] fix match. peel_all ident:(p). bsimp.
+  pose proof (i_wfb _ I) as Wb. pose proof (i_cur _ I) as Hc. pose proof (wb_two _ Wb) as H2.
+  set (e := end_stmt (For k body ONone)) in *.
+  change (s10p = process_block' (set_cur (loop_s9 s k e false) (N.succ (next s))) body) in Es10p.
+  set (rb := flow_block L body).
+  set (l1 := upd (upd (upd l (next s) L) (N.succ (next s)) L) (N.succ (N.succ (next s))) (L || rk rb)).
+  assert (A1 : agree (next s) l l1) by (intros b Hb; unfold l1; lev; reflexivity).
+  destruct (S_loop_body s k e false l l1 body Sb I Hlok A1) as (l2 & LP).
+  { unfold l1; lev; reflexivity. }
+  { unfold l1; lev; reflexivity. }
+  { intro Hk. unfold l1. lev. unfold rb, L. rewrite Hk. apply orb_true_r. }
+  rewrite <- Es10p in LP. destruct LP as (A2 & F & C & I10 & L10 & X10 & N10 & K10 & So & Co & Da & Db & Dc).
+  destruct (loop_s9_facts s k e false I) as (M9 & K9 & N9 & C9 & L9 & X9 & E9 & P9).
+  destruct (loop_s6_proj s k e false) as (P1 & _). rewrite P1 in N9. fold L rb in C, So, Co, Da, Db.
+  set (s9 := loop_s9 s k e false) in *. rewrite N9 in *.
+  pose proof (lf_curlt _ _ F) as Hc10.
+  rewrite L10. cbn [tl].
+  exists l2. split; [intros b Hb; lev; unfold l1; lev; reflexivity|].
+  cbn [flow_stmt flow_oblock opt_n rn rk rmarks]. fold L rb. rewrite app_nil_r.
+  split; [|split; [|split; [|split; [|split; [|split]]]]].
+  - apply lframe_mid; autorewrite with bst; try flia.
+    + apply mid_set_loops, mid_connect; [|left; exact Logic.I|exact Hc10|flia].
+      apply (mid_transA _ anyb s (set_cur s9 (N.succ (next s)))); [apply mid_set_cur; exact M9|apply F|intros; left; exact Logic.I].
+    + reflexivity.
+    + exact X10.
+    + apply klt_set_loops, klt_connect. exact (lf_klt _ _ F).
+  - autorewrite with bst. lev. unfold l1. lev. reflexivity.
+  - intros Hctx Hb Cl. autorewrite with bst. rewrite closed_snoc. split.
+    + apply So; [exact Hctx|]. rewrite E9. rewrite !closed_snoc. split; [split; [split|]|].
+      * apply (closed_ext l); assumption.
+      * unfold l1. lev. exact (fun H => H).
+      * unfold l1. lev. exact (fun H => H).
+      * unfold l1. lev. fold L. intro H. rewrite H. reflexivity.
+    + rewrite C. lev. unfold l1. lev. apply rn_block_le.
+  - intros E HE HR. autorewrite with bst in HE.
+    assert (HE10 : incl (edges s10p) E) by (intros x Hx; apply HE; apply in_or_app; left; exact Hx).
+    assert (HE9 : incl (edges s9) E) by (eapply incl_tran; [apply (lframe_incl _ _ F)|exact HE10]).
+    rewrite E9 in HE9.
+    assert (HRh : L = true -> reach E (next s)).
+    { intro HL. eapply reach_step; [apply HR; exact HL|]. apply HE9. apply in_or_app. left. apply in_or_app. left. apply in_or_app. right. left. reflexivity. }
+    assert (HRb : L = true -> reach E (N.succ (next s))).
+    { intro HL. eapply reach_step; [apply HRh; exact HL|]. apply HE9. apply in_or_app. left. apply in_or_app. right. left. reflexivity. }
+    destruct (Co E HE10 HRb) as (P4 & P1' & P2).
+    autorewrite with bst. split; [|split].
+    + intros b Hb1 Hb2 Hb3. destruct (N.lt_ge_cases b (N.succ (N.succ (N.succ (next s))))) as [Hlt|Hge].
+      * assert (b = next s \/ b = N.succ (next s) \/ b = N.succ (N.succ (next s))) as [->|[->| ->]] by flia.
+        -- apply HRh. lev_in Hb3. unfold l1 in Hb3. lev_in Hb3. exact Hb3.
+        -- apply HRb. lev_in Hb3. unfold l1 in Hb3. lev_in Hb3. exact Hb3.
+        -- lev_in Hb3. unfold l1 in Hb3. lev_in Hb3. fold L rb in Hb3. apply orb_true_iff in Hb3. destruct Hb3 as [Hb3|Hb3].
+           ++ eapply reach_step; [apply HRh; exact Hb3|]. apply HE9. apply in_or_app. right. left. reflexivity.
+           ++ apply P2. exact Hb3.
+      * apply P4; [exact Hge|exact Hb2|exact Hb3].
+    + discriminate.
+    + intros HL Hn. rewrite HL in Hn. discriminate.
+  - intros k' e' b Hp. autorewrite with plc in Hp. destruct (Da k' e' b Hp) as [Hp0|[Hk|(Hm & Hs)]].
+    + apply P9 in Hp0. apply placed_add_stmt_inv in Hp0. destruct Hp0 as [Hp0|(-> & -> & ->)].
+      * left. autorewrite with plc in Hp0. exact Hp0.
+      * right. right. cbn [mk b_start b_end]. split; [left|left; reflexivity]. lev. unfold l1. lev. reflexivity.
+    + right. left. exact Hk.
+    + right. right. split; [right; exact Hm|right; rewrite app_nil_r; exact Hs].
+  - intros k' m [Heq|Hin].
+    + inversion Heq; subst. right. exists e, (next s). split.
+      * autorewrite with plc. apply Dc. apply P9. apply (placed_add_stmt_new (nb s) (next s) (mk k' e KOther)). left. reflexivity.
+      * lev. unfold l1. lev. reflexivity.
+    + destruct (Db k' m Hin) as [He|(e' & b & Hp & Hm)]; [left; cbn [elif_stmt elif_oblock]; rewrite app_nil_r; exact He|].
+      right. exists e', b. split; [autorewrite with plc; exact Hp|exact Hm].
+  - intros k' e' b Hp. autorewrite with plc. apply Dc. apply P9. apply placed_add_stmt_mono. autorewrite with plc. exact Hp.
+Qed.
+
+
+Lemma S_while_some k body eb : S_block body -> S_block eb -> S_stmt (While k body (OSome eb)).
+Proof.
+  intros Sb Se s l inl I Hlok Hinl. cbn [lok_stmt lok_oblock] in Hlok. apply andb_true_iff in Hlok. destruct Hlok as (Hlok & Hloke).
+  set (L := l (cur s)).
+  cbn beta iota delta [process_stmt'] fix match. peel_all ident:(p). bsimp.
+  pose proof (i_wfb _ I) as Wb. pose proof (i_cur _ I) as Hc. pose proof (wb_two _ Wb) as H2.
+  set (e := end_stmt (While k body (OSome eb))) in *.
+  change (s10p = process_block' (set_cur (loop_s9 s k e true) (N.succ (next s))) body) in Es10p.
+  set (rb := flow_block L body). set (re := flow_block L eb).
+  set (elseb := N.succ (N.succ (N.succ (next s)))) in *.
+  set (l1 := upd (upd (upd (upd l (next s) L) (N.succ (next s)) L) (N.succ (N.succ (next s))) (rn re || rk rb)) elseb L).
+  assert (A1 : agree (next s) l l1) by (intros b Hb; unfold l1, elseb; lev; reflexivity).
+  destruct (S_loop_body s k e true l l1 body Sb I Hlok A1) as (l2 & LP).
+  { unfold l1, elseb; lev; reflexivity. }
+  { unfold l1, elseb; lev; reflexivity. }
+  { intro Hk. unfold l1, elseb. lev. unfold rb, L. rewrite Hk. apply orb_true_r. }
+  rewrite <- Es10p in LP. destruct LP as (A2 & F & C & I10 & L10 & X10 & N10 & K10 & So & Co & Da & Db & Dc).
+  destruct (loop_s9_facts s k e true I) as (M9 & K9 & N9 & C9 & L9 & X9 & E9 & P9).
+  destruct (loop_s6_proj s k e true) as (P1 & _). rewrite P1 in N9. fold L rb in C, So, Co, Da, Db.
+  set (s9 := loop_s9 s k e true) in *. rewrite N9 in *.
+  pose proof (lf_curlt _ _ F) as Hc10.
+  rewrite L10 in *. cbn [tl] in *.
+  set (s12 := set_loops (connect s10p (cur s10p) (next s) ELoop) (loops s)) in *.
+  assert (M12 : mid anyb s s12).
+  { apply mid_set_loops, mid_connect; [|left; exact Logic.I|exact Hc10|flia].
+    apply (mid_transA _ anyb s (set_cur s9 (N.succ (next s)))); [apply mid_set_cur; exact M9|apply F|intros; left; exact Logic.I]. }
+  assert (K12 : klt s12) by (apply klt_set_loops, klt_connect; exact (lf_klt _ _ F)).
+  assert (N12 : next s12 = next s10p) by reflexivity.
+  assert (Ag2 : agree (next s) l l2) by (intros b Hb; lev; unfold l1, elseb; lev; reflexivity).
+  destruct (S_branch s s12 elseb l l2 inl eb Se I M12 eq_refl X10 K12) as (l3 & B); try assumption; try (unfold elseb; flia).
+  rewrite <- Et1p in B. destruct B as (A3 & F1 & C1 & N1 & I1 & So1 & Co1 & Da1 & Db1 & Dc1).
+  assert (Hle : l2 elseb = L) by (lev; unfold l1, elseb; lev; reflexivity).
+  rewrite Hle in *. fold re in C1, So1, Co1, Da1, Db1. rewrite N12 in *.
+  pose proof (lf_curlt _ _ F1) as Hc1.
+  exists l3. split; [intros b Hb; lev; unfold l1, elseb; lev; reflexivity|].
+  cbn [flow_stmt flow_oblock opt_n rn rk rmarks]. fold L rb re.
+  split; [|split; [|split; [|split; [|split; [|split]]]]].
+  - apply lframe_mid; autorewrite with bst; try flia.
+    + apply mid_connect; [|left; exact Logic.I|exact Hc1|flia].
+      apply (mid_transA _ anyb s (set_cur s12 elseb)); [apply mid_set_cur; exact M12|apply F1|intros; left; exact Logic.I].
+    + rewrite (lf_loops _ _ F1). reflexivity.
+    + rewrite (lf_excs _ _ F1). autorewrite with bst. exact X10.
+    + apply klt_connect. exact (lf_klt _ _ F1).
+  - autorewrite with bst. lev. unfold l1, elseb. lev. reflexivity.
+  - intros Hctx Hb Cl. autorewrite with bst. rewrite closed_snoc. split.
+    + apply So1; [exact Hctx|exact Hb|]. unfold s12. autorewrite with bst. rewrite closed_snoc. split.
+      * apply So; [exact Hctx|]. rewrite E9. rewrite !closed_snoc. split; [split; [split|]|].
+        -- apply (closed_ext l); assumption.
+        -- unfold l1, elseb. lev. exact (fun H => H).
+        -- unfold l1, elseb. lev. exact (fun H => H).
+        -- unfold l1, elseb. lev. exact (fun H => H).
+      * rewrite C. lev. unfold l1, elseb. lev. apply rn_block_le.
+    + rewrite C1. lev. unfold l1, elseb. lev. intro H. rewrite H. reflexivity.
+  - intros E HE HR. autorewrite with bst in HE.
+    assert (HE1 : incl (edges t1p) E) by (intros x Hx; apply HE; apply in_or_app; left; exact Hx).
+    assert (HE12 : incl (edges s12) E) by (eapply incl_tran; [apply (lframe_incl _ _ F1)|exact HE1]).
+    assert (HE10 : incl (edges s10p) E) by (intros x Hx; apply HE12; unfold s12; autorewrite with bst; apply in_or_app; left; exact Hx).
+    assert (HE9 : incl (edges s9) E) by (eapply incl_tran; [apply (lframe_incl _ _ F)|exact HE10]).
+    rewrite E9 in HE9.
+    assert (HRh : L = true -> reach E (next s)).
+    { intro HL. eapply reach_step; [apply HR; exact HL|]. apply HE9. apply in_or_app. left. apply in_or_app. left. apply in_or_app. right. left. reflexivity. }
+    assert (HRb : L = true -> reach E (N.succ (next s))).
+    { intro HL. eapply reach_step; [apply HRh; exact HL|]. apply HE9. apply in_or_app. left. apply in_or_app. right. left. reflexivity. }
+    assert (HRe : L = true -> reach E elseb).
+    { intro HL. eapply reach_step; [apply HRh; exact HL|]. apply HE9. apply in_or_app. right. left. reflexivity. }
+    destruct (Co E HE10 HRb) as (P4 & P1' & P2). destruct (Co1 E HE1 HRe) as (P4e & P1e & P2e & P3e).
+    autorewrite with bst. split; [|split].
+    + intros b Hb1 Hb2 Hb3. destruct (N.lt_ge_cases b (N.succ elseb)) as [Hlt|Hge].
+      * assert (b = next s \/ b = N.succ (next s) \/ b = N.succ (N.succ (next s)) \/ b = elseb) as [->|[->|[->| ->]]] by (unfold elseb in *; flia).
+        -- apply HRh. lev_in Hb3. unfold l1, elseb in Hb3. lev_in Hb3. exact Hb3.
+        -- apply HRb. lev_in Hb3. unfold l1, elseb in Hb3. lev_in Hb3. exact Hb3.
+        -- lev_in Hb3. unfold l1, elseb in Hb3. lev_in Hb3. apply orb_true_iff in Hb3. destruct Hb3 as [Hb3|Hb3].
+           ++ eapply reach_step; [apply P1e; exact Hb3|]. apply HE. apply in_or_app. right. left. reflexivity.
+           ++ apply P2. exact Hb3.
+        -- apply HRe. rewrite (A3 elseb) in Hb3 by (unfold elseb; flia). rewrite Hle in Hb3. exact Hb3.
+      * destruct (N.lt_ge_cases b (next s10p)) as [Hlt'|Hge'].
+        -- apply P4; [unfold elseb in Hge; flia|exact Hlt'|]. lev_in Hb3. exact Hb3.
+        -- apply P4e; [exact Hge'|exact Hb2|exact Hb3].
+    + exact P2e.
+    + intros HL Hn. apply orb_false_iff in Hn. destruct Hn as (Hn & _). exact (P3e HL Hn).
+  - intros k' e' b Hp. autorewrite with plc in Hp. destruct (Da1 k' e' b Hp) as [Hp0|[Hk|(Hm & Hs)]].
+    + unfold s12 in Hp0. autorewrite with plc in Hp0. destruct (Da k' e' b Hp0) as [Hp1|[Hk|(Hm & Hs)]].
+      * apply P9 in Hp1. apply placed_add_stmt_inv in Hp1. destruct Hp1 as [Hp1|(-> & -> & ->)].
+        -- left. autorewrite with plc in Hp1. exact Hp1.
+        -- right. right. cbn [mk b_start b_end]. split; [left|left; reflexivity]. lev. unfold l1, elseb. lev. reflexivity.
+      * right. left. exact Hk.
+      * right. right. split; [right; apply in_or_app; left|right; apply in_or_app; left; exact Hs].
+        assert (Hb : b < next s10p) by (apply (placed_lt s10p k' e'); assumption). lev. exact Hm.
+    + right. left. exact Hk.
+    + right. right. split; [right; apply in_or_app; right; exact Hm|right; apply in_or_app; right; exact Hs].
+  - intros k' m [Heq|Hin].
+    + inversion Heq; subst. right. exists e, (next s). split.
+      * autorewrite with plc. apply Dc1. unfold s12. autorewrite with plc. apply Dc. apply P9.
+        apply (placed_add_stmt_new (nb s) (next s) (mk k' e KOther)). left. reflexivity.
+      * lev. unfold l1, elseb. lev. reflexivity.
+    + cbn [elif_stmt elif_oblock]. apply in_app_or in Hin. destruct Hin as [Hin|Hin].
+      * destruct (Db k' m Hin) as [He|(e' & b & Hp & Hm)]; [left; apply in_or_app; left; exact He|].
+        right. exists e', b. split; [autorewrite with plc; apply Dc1; unfold s12; autorewrite with plc; exact Hp|].
+        assert (Hb : b < next s10p) by (apply (placed_lt s10p k' e'); assumption). lev. exact Hm.
+      * destruct (Db1 k' m Hin) as [He|(e' & b & Hp & Hm)]; [left; apply in_or_app; right; exact He|].
+        right. exists e', b. split; [autorewrite with plc; exact Hp|exact Hm].
+  - intros k' e' b Hp. autorewrite with plc. apply Dc1. unfold s12. autorewrite with plc. apply Dc. apply P9.
+    apply placed_add_stmt_mono. autorewrite with plc. exact Hp.
+Qed.
+
+Lemma S_for_some k body eb : S_block body -> S_block eb -> S_stmt (For k body (OSome eb)).
+Proof.
+  intros Sb Se s l inl I Hlok Hinl. cbn [lok_stmt lok_oblock] in Hlok. apply andb_true_iff in Hlok. destruct Hlok as (Hlok & Hloke).
+  set (L := l (cur s)).
+  cbn beta iota delta [process_stmt'] fix match. peel_all ident:(p). bsimp.
+  pose proof (i_wfb _ I) as Wb. pose proof (i_cur _ I) as Hc. pose proof (wb_two _ Wb) as H2.
+  set (e := end_stmt (For k body (OSome eb))) in *.
+  change (s10p = process_block' (set_cur (loop_s9 s k e true) (N.succ (next s))) body) in Es10p.
+  set (rb := flow_block L body). set (re := flow_block L eb).
+  set (elseb := N.succ (N.succ (N.succ (next s)))) in *.
+  set (l1 := upd (upd (upd (upd l (next s) L) (N.succ (next s)) L) (N.succ (N.succ (next s))) (rn re || rk rb)) elseb L).
+  assert (A1 : agree (next s) l l1) by (intros b Hb; unfold l1, elseb; lev; reflexivity).
+  destruct (S_loop_body s k e true l l1 body Sb I Hlok A1) as (l2 & LP).
+  { unfold l1, elseb; lev; reflexivity. }
+  { unfold l1, elseb; lev; reflexivity. }
+  { intro Hk. unfold l1, elseb. lev. unfold rb, L. rewrite Hk. apply orb_true_r. }
+  rewrite <- Es10p in LP. destruct LP as (A2 & F & C & I10 & L10 & X10 & N10 & K10 & So & Co & Da & Db & Dc).
+  destruct (loop_s9_facts s k e true I) as (M9 & K9 & N9 & C9 & L9 & X9 & E9 & P9).
+  destruct (loop_s6_proj s k e true) as (P1 & _). rewrite P1 in N9. fold L rb in C, So, Co, Da, Db.
+  set (s9 := loop_s9 s k e true) in *. rewrite N9 in *.
+  pose proof (lf_curlt _ _ F) as Hc10.
+  rewrite L10 in *. cbn [tl] in *.
+  set (s12 := set_loops (connect s10p (cur s10p) (next s) ELoop) (loops s)) in *.
+  assert (M12 : mid anyb s s12).
+  { apply mid_set_loops, mid_connect; [|left; exact Logic.I|exact Hc10|flia].
+    apply (mid_transA _ anyb s (set_cur s9 (N.succ (next s)))); [apply mid_set_cur; exact M9|apply F|intros; left; exact Logic.I]. }
+  assert (K12 : klt s12) by (apply klt_set_loops, klt_connect; exact (lf_klt _ _ F)).
+  assert (N12 : next s12 = next s10p) by reflexivity.
+  assert (Ag2 : agree (next s) l l2) by (intros b Hb; lev; unfold l1, elseb; lev; reflexivity).
+  destruct (S_branch s s12 elseb l l2 inl eb Se I M12 eq_refl X10 K12) as (l3 & B); try assumption; try (unfold elseb; flia).
+  rewrite <- Et1p in B. destruct B as (A3 & F1 & C1 & N1 & I1 & So1 & Co1 & Da1 & Db1 & Dc1).
+  assert (Hle : l2 elseb = L) by (lev; unfold l1, elseb; lev; reflexivity).
+  rewrite Hle in *. fold re in C1, So1, Co1, Da1, Db1. rewrite N12 in *.
+  pose proof (lf_curlt _ _ F1) as Hc1.
+  exists l3. split; [intros b Hb; lev; unfold l1, elseb; lev; reflexivity|].
+  cbn [flow_stmt flow_oblock opt_n rn rk rmarks]. fold L rb re.
+  split; [|split; [|split; [|split; [|split; [|split]]]]].
+  - apply lframe_mid; autorewrite with bst; try flia.
+    + apply mid_connect; [|left; exact Logic.I|exact Hc1|flia].
+      apply (mid_transA _ anyb s (set_cur s12 elseb)); [apply mid_set_cur; exact M12|apply F1|intros; left; exact Logic.I].
+    + rewrite (lf_loops _ _ F1). reflexivity.
+    + rewrite (lf_excs _ _ F1). autorewrite with bst. exact X10.
+    + apply klt_connect. exact (lf_klt _ _ F1).
+  - autorewrite with bst. lev. unfold l1, elseb. lev. reflexivity.
+  - intros Hctx Hb Cl. autorewrite with bst. rewrite closed_snoc. split.
+    + apply So1; [exact Hctx|exact Hb|]. unfold s12. autorewrite with bst. rewrite closed_snoc. split.
+      * apply So; [exact Hctx|]. rewrite E9. rewrite !closed_snoc. split; [split; [split|]|].
+        -- apply (closed_ext l); assumption.
+        -- unfold l1, elseb. lev. exact (fun H => H).
+        -- unfold l1, elseb. lev. exact (fun H => H).
+        -- unfold l1, elseb. lev. exact (fun H => H).
+      * rewrite C. lev. unfold l1, elseb. lev. apply rn_block_le.
+    + rewrite C1. lev. unfold l1, elseb. lev. intro H. rewrite H. reflexivity.
+  - intros E HE HR. autorewrite with bst in HE.
+    assert (HE1 : incl (edges t1p) E) by (intros x Hx; apply HE; apply in_or_app; left; exact Hx).
+    assert (HE12 : incl (edges s12) E) by (eapply incl_tran; [apply (lframe_incl _ _ F1)|exact HE1]).
+    assert (HE10 : incl (edges s10p) E) by (intros x Hx; apply HE12; unfold s12; autorewrite with bst; apply in_or_app; left; exact Hx).
+    assert (HE9 : incl (edges s9) E) by (eapply incl_tran; [apply (lframe_incl _ _ F)|exact HE10]).
+    rewrite E9 in HE9.
+    assert (HRh : L = true -> reach E (next s)).
+    { intro HL. eapply reach_step; [apply HR; exact HL|]. apply HE9. apply in_or_app. left. apply in_or_app. left. apply in_or_app. right. left. reflexivity. }
+    assert (HRb : L = true -> reach E (N.succ (next s))).
+    { intro HL. eapply reach_step; [apply HRh; exact HL|]. apply HE9. apply in_or_app. left. apply in_or_app. right. left. reflexivity. }
+    assert (HRe : L = true -> reach E elseb).
+    { intro HL. eapply reach_step; [apply HRh; exact HL|]. apply HE9. apply in_or_app. right. left. reflexivity. }
+    destruct (Co E HE10 HRb) as (P4 & P1' & P2). destruct (Co1 E HE1 HRe) as (P4e & P1e & P2e & P3e).
+    autorewrite with bst. split; [|split].
+    + intros b Hb1 Hb2 Hb3. destruct (N.lt_ge_cases b (N.succ elseb)) as [Hlt|Hge].
+      * assert (b = next s \/ b = N.succ (next s) \/ b = N.succ (N.succ (next s)) \/ b = elseb) as [->|[->|[->| ->]]] by (unfold elseb in *; flia).
+        -- apply HRh. lev_in Hb3. unfold l1, elseb in Hb3. lev_in Hb3. exact Hb3.
+        -- apply HRb. lev_in Hb3. unfold l1, elseb in Hb3. lev_in Hb3. exact Hb3.
+        -- lev_in Hb3. unfold l1, elseb in Hb3. lev_in Hb3. apply orb_true_iff in Hb3. destruct Hb3 as [Hb3|Hb3].
+           ++ eapply reach_step; [apply P1e; exact Hb3|]. apply HE. apply in_or_app. right. left. reflexivity.
+           ++ apply P2. exact Hb3.
+        -- apply HRe. rewrite (A3 elseb) in Hb3 by (unfold elseb; flia). rewrite Hle in Hb3. exact Hb3.
+      * destruct (N.lt_ge_cases b (next s10p)) as [Hlt'|Hge'].
+        -- apply P4; [unfold elseb in Hge; flia|exact Hlt'|]. lev_in Hb3. exact Hb3.
+        -- apply P4e; [exact Hge'|exact Hb2|exact Hb3].
+    + exact P2e.
+    + intros HL Hn. apply orb_false_iff in Hn. destruct Hn as (Hn & _). exact (P3e HL Hn).
+  - intros k' e' b Hp. autorewrite with plc in Hp. destruct (Da1 k' e' b Hp) as [Hp0|[Hk|(Hm & Hs)]].
+    + unfold s12 in Hp0. autorewrite with plc in Hp0. destruct (Da k' e' b Hp0) as [Hp1|[Hk|(Hm & Hs)]].
+      * apply P9 in Hp1. apply placed_add_stmt_inv in Hp1. destruct Hp1 as [Hp1|(-> & -> & ->)].
+        -- left. autorewrite with plc in Hp1. exact Hp1.
+        -- right. right. cbn [mk b_start b_end]. split; [left|left; reflexivity]. lev. unfold l1, elseb. lev. reflexivity.
+      * right. left. exact Hk.
+      * right. right. split; [right; apply in_or_app; left|right; apply in_or_app; left; exact Hs].
+        assert (Hb : b < next s10p) by (apply (placed_lt s10p k' e'); assumption). lev. exact Hm.
+    + right. left. exact Hk.
+    + right. right. split; [right; apply in_or_app; right; exact Hm|right; apply in_or_app; right; exact Hs].
+  - intros k' m [Heq|Hin].
+    + inversion Heq; subst. right. exists e, (next s). split.
+      * autorewrite with plc. apply Dc1. unfold s12. autorewrite with plc. apply Dc. apply P9.
+        apply (placed_add_stmt_new (nb s) (next s) (mk k' e KOther)). left. reflexivity.
+      * lev. unfold l1, elseb. lev. reflexivity.
+    + cbn [elif_stmt elif_oblock]. apply in_app_or in Hin. destruct Hin as [Hin|Hin].
+      * destruct (Db k' m Hin) as [He|(e' & b & Hp & Hm)]; [left; apply in_or_app; left; exact He|].
+        right. exists e', b. split; [autorewrite with plc; apply Dc1; unfold s12; autorewrite with plc; exact Hp|].
+        assert (Hb : b < next s10p) by (apply (placed_lt s10p k' e'); assumption). lev. exact Hm.
+      * destruct (Db1 k' m Hin) as [He|(e' & b & Hp & Hm)]; [left; apply in_or_app; right; exact He|].
+        right. exists e', b. split; [autorewrite with plc; exact Hp|exact Hm].
+  - intros k' e' b Hp. autorewrite with plc. apply Dc1. unfold s12. autorewrite with plc. apply Dc. apply P9.
+    apply placed_add_stmt_mono. autorewrite with plc. exact Hp.
+Qed.
+
